@@ -21,29 +21,25 @@ def load_witnesses(prop: str) -> list[dict]:
 
 def run_witnesses(prop: str) -> list[corpus.Case]:
     """the recorded witnesses of known findings, analysed by the current tree (they run first)"""
-    ws = load_witnesses(prop)
+    import findings
+    ws = [w for w in load_witnesses(prop) if w["witness"] in findings.BUILDERS]
     if not ws:
         return []
     base = implrun.scratch_dir(f"wit_{prop}")
     jobs, meta = [], []
     for w in ws:
-        src = FINDINGS_DIR / w["witness"]
-        if not src.exists():
-            continue
-        files = {str(p.relative_to(src)): p.read_text() for p in src.rglob("*.py")}
+        pkg, opts = findings.BUILDERS[w["witness"]]()
+        files = gen_pkg.package_files(pkg)
         root = base / w["id"]
         implrun.write_tree(root, files)
-        pkgname = sorted({f.split("/")[0] for f in files})[0]
-        job = {"src": str(root / pkgname), "out": str(base / (w["id"] + "_out")), **w.get("options", {})}
+        job = {"src": str(root / pkg.name), "out": str(base / (w["id"] + "_out")), "docstyle": pkg.style, **opts}
         jobs.append(job)
-        meta.append((w, files))
+        meta.append((w, pkg, files))
     answers = implrun.run_jobs(jobs)
     cases = []
-    for (w, files), job, a in zip(meta, jobs, answers, strict=True):
+    for (w, pkg, files), job, a in zip(meta, jobs, answers, strict=True):
         a.pop("api_sx", None)
-        pk = gen_pkg.Package(name=w["id"], modules=[], inits=[])
-        c = corpus.Case(-1, pk, files, job, a, None)
-        c.witness = w   # type: ignore[attr-defined]
+        c = corpus.Case(-1, pkg, files, job, a, None)
         cases.append(c)
     implrun.cleanup()
     return cases
@@ -57,7 +53,8 @@ def corpus_check(ctx, prop: str, oracle=None, *, stream: str = "base", nontrivia
     violations = []
     checked = 0
     nt = 0
-    for c in cases:
+    wit = run_witnesses(prop) if oracle is not None else []
+    for c in wit + cases:
         if oracle is not None:
             r = oracle(c)
             vs, n = r if isinstance(r, tuple) else (r, 1)
